@@ -8,6 +8,8 @@
 (*   Channel._feed            -> in_buffer.feed                                    *)
 (*   Channel._feed_extended   -> reads combine_stderr, then feeds in_buffer or     *)
 (*                               in_stderr_buffer                                  *)
+(* The peer's EOF / CLOSE close both pipes (`shut`); buffered bytes stay readable  *)
+(* and the combine switch may still come afterwards.                               *)
 (* Application threads read either endpoint (recv / recv_stderr) in arbitrary     *)
 (* chunk sizes and may switch stderr combining on (Channel.set_combine_stderr):    *)
 (*   [channel lock: combine_stderr := TRUE; data := in_stderr_buffer.empty()]      *)
@@ -44,8 +46,11 @@ VARIABLES sent,        \* [Chans -> [Eps -> Nat]]   bytes written so far by the 
           swpc,        \* [Chans -> {"off","moved","on"}] progress of set_combine_stderr(True)
           moved,       \* [Chans -> Seq(run)]  old stderr bytes held by the switching thread
           tpc,         \* transport thread inside _feed_extended: <<>> or <<[m, flag]>>
-          status       \* [Chans -> Statuses \cup {None}]  exit status register at the reader
-vars == <<sent, statusSent, wire, buf, got, combine, swpc, moved, tpc, status>>
+          status,      \* [Chans -> Statuses \cup {None}]  exit status register at the reader
+          pstate,      \* [Chans -> {"open","eof","closed"}]  what the peer has sent: EOF (shutdown_write), CLOSE
+          shut         \* [Chans -> BOOLEAN]  the peer's EOF or CLOSE has been processed here: _handle_eof /
+                       \* _set_closed have called close() on in_buffer and in_stderr_buffer
+vars == <<sent, statusSent, wire, buf, got, combine, swpc, moved, tpc, status, pstate, shut>>
 
 (* ------------------------------------------------------------------ runs *)
 Run(c, s, pos, n) == [c |-> c, s |-> s, pos |-> pos, n |-> n]
@@ -87,34 +92,52 @@ Init == /\ sent = [c \in Chans |-> [e \in Eps |-> 0]]
         /\ moved = [c \in Chans |-> <<>>]
         /\ tpc = <<>>
         /\ status = [c \in Chans |-> None]
+        /\ pstate = [c \in Chans |-> "open"]
+        /\ shut = [c \in Chans |-> FALSE]
 
 \* ---- the peer (send / send_stderr / send_exit_status on its end of the channel)
 PeerWrite(c, s, n) ==
-  /\ statusSent[c] = None
+  /\ statusSent[c] = None /\ pstate[c] = "open"
   /\ sent[c][s] + n <= MaxBytes
   /\ wire' = Append(wire, Run(c, s, sent[c][s], n))
   /\ sent' = [sent EXCEPT ![c][s] = @ + n]
-  /\ UNCHANGED <<statusSent, buf, got, combine, swpc, moved, tpc, status>>
+  /\ UNCHANGED <<statusSent, buf, got, combine, swpc, moved, tpc, status, pstate, shut>>
 
 PeerExit(c, v) ==
-  /\ statusSent[c] = None
+  /\ statusSent[c] = None /\ pstate[c] # "closed"
   /\ statusSent' = [statusSent EXCEPT ![c] = v]
   /\ wire' = Append(wire, Run(c, "exit", v, 0))
-  /\ UNCHANGED <<sent, buf, got, combine, swpc, moved, tpc, status>>
+  /\ UNCHANGED <<sent, buf, got, combine, swpc, moved, tpc, status, pstate, shut>>
+
+\* shutdown_write() / close() on the peer's end: CHANNEL_EOF, CHANNEL_CLOSE (no data after either)
+PeerEof(c) ==
+  /\ pstate[c] = "open"
+  /\ pstate' = [pstate EXCEPT ![c] = "eof"]
+  /\ wire' = Append(wire, Run(c, "eof", 0, 0))
+  /\ UNCHANGED <<sent, statusSent, buf, got, combine, swpc, moved, tpc, status, shut>>
+PeerClose(c) ==
+  /\ pstate[c] # "closed"
+  /\ pstate' = [pstate EXCEPT ![c] = "closed"]
+  /\ wire' = Append(wire, Run(c, "close", 0, 0))
+  /\ UNCHANGED <<sent, statusSent, buf, got, combine, swpc, moved, tpc, status, shut>>
+
+\* BufferedPipe.feed: a pipe that has been closed still takes data (set_combine_stderr relies on it when the
+\* switch comes after the peer's EOF / CLOSE)
+Fed(q, c, rs) == IF Mutation = "drop_when_closed" /\ shut[c] THEN q ELSE q \o rs
 
 \* ---- the transport thread: dispatch of the head message (transport.py run loop -> Channel._feed*)
 Dest(c) == IF Mutation = "wrong_channel" /\ Cardinality(Chans) > 1 THEN CHOOSE d \in Chans : d # c ELSE c
 
 FeedOut ==
   /\ tpc = <<>> /\ wire # <<>> /\ Head(wire).s = "out"
-  /\ LET m == Head(wire) IN buf' = [buf EXCEPT ![Dest(m.c)].out = Append(@, m)]
+  /\ LET m == Head(wire) IN buf' = [buf EXCEPT ![Dest(m.c)].out = Fed(@, Dest(m.c), <<m>>)]
   /\ wire' = Tail(wire)
-  /\ UNCHANGED <<sent, statusSent, got, combine, swpc, moved, tpc, status>>
+  /\ UNCHANGED <<sent, statusSent, got, combine, swpc, moved, tpc, status, pstate, shut>>
 
 Route(m, flag) ==
   IF flag /\ Mutation # "ignore_combine"
-  THEN buf' = [buf EXCEPT ![m.c].out = Append(@, m)]
-  ELSE buf' = [buf EXCEPT ![m.c].err = Append(@, m)]
+  THEN buf' = [buf EXCEPT ![m.c].out = Fed(@, m.c, <<m>>)]
+  ELSE buf' = [buf EXCEPT ![m.c].err = Fed(@, m.c, <<m>>)]
 
 \* repaired design: flag test and feed under the channel lock
 FeedExtAtomic ==
@@ -123,7 +146,7 @@ FeedExtAtomic ==
   /\ swpc[Head(wire).c] # "moved"              \* (never "moved" when AtomicCombine)
   /\ Route(Head(wire), combine[Head(wire).c])
   /\ wire' = Tail(wire)
-  /\ UNCHANGED <<sent, statusSent, got, combine, swpc, moved, tpc, status>>
+  /\ UNCHANGED <<sent, statusSent, got, combine, swpc, moved, tpc, status, pstate, shut>>
 
 \* pinned code: `if self.combine_stderr:` ... then the feed, no lock
 FeedExtTest ==
@@ -131,25 +154,32 @@ FeedExtTest ==
   /\ tpc = <<>> /\ wire # <<>> /\ Head(wire).s = "err"
   /\ tpc' = <<[m |-> Head(wire), flag |-> combine[Head(wire).c]]>>
   /\ wire' = Tail(wire)
-  /\ UNCHANGED <<sent, statusSent, buf, got, combine, swpc, moved, status>>
+  /\ UNCHANGED <<sent, statusSent, buf, got, combine, swpc, moved, status, pstate, shut>>
 FeedExtFeed ==
   /\ tpc # <<>>
   /\ Route(tpc[1].m, tpc[1].flag)
   /\ tpc' = <<>>
-  /\ UNCHANGED <<sent, statusSent, wire, got, combine, swpc, moved, status>>
+  /\ UNCHANGED <<sent, statusSent, wire, got, combine, swpc, moved, status, pstate, shut>>
 
 ExitStatus ==
   /\ tpc = <<>> /\ wire # <<>> /\ Head(wire).s = "exit"
   /\ status' = [status EXCEPT ![Head(wire).c] = IF Mutation = "status_low_byte" THEN Head(wire).pos % 2 ELSE Head(wire).pos]
   /\ wire' = Tail(wire)
-  /\ UNCHANGED <<sent, statusSent, buf, got, combine, swpc, moved, tpc>>
+  /\ UNCHANGED <<sent, statusSent, buf, got, combine, swpc, moved, tpc, pstate, shut>>
+
+\* Channel._handle_eof / _handle_close: both pipes are closed (readers get EOF once they are empty)
+EofOrClose ==
+  /\ tpc = <<>> /\ wire # <<>> /\ Head(wire).s \in {"eof", "close"}
+  /\ shut' = [shut EXCEPT ![Head(wire).c] = TRUE]
+  /\ wire' = Tail(wire)
+  /\ UNCHANGED <<sent, statusSent, buf, got, combine, swpc, moved, tpc, status, pstate>>
 
 \* ---- application threads
 Recv(c, ep, k) ==
   /\ buf[c][ep] # <<>>
   /\ got' = [got EXCEPT ![c][ep] = AppendRuns(@, TakeBytes(buf[c][ep], k))]
   /\ buf' = [buf EXCEPT ![c][ep] = DropBytes(@, IF Mutation = "skip_byte" THEN k + 1 ELSE k)]
-  /\ UNCHANGED <<sent, statusSent, wire, combine, swpc, moved, tpc, status>>
+  /\ UNCHANGED <<sent, statusSent, wire, combine, swpc, moved, tpc, status, pstate, shut>>
 
 Old(c) == IF Mutation = "lose_old" THEN <<>> ELSE buf[c].err
 
@@ -157,9 +187,9 @@ Old(c) == IF Mutation = "lose_old" THEN <<>> ELSE buf[c].err
 CombineAtomic(c) ==
   /\ AtomicCombine /\ swpc[c] = "off"
   /\ combine' = [combine EXCEPT ![c] = TRUE]
-  /\ buf' = [buf EXCEPT ![c].out = @ \o Old(c), ![c].err = <<>>]
+  /\ buf' = [buf EXCEPT ![c].out = Fed(@, c, Old(c)), ![c].err = <<>>]
   /\ swpc' = [swpc EXCEPT ![c] = "on"]
-  /\ UNCHANGED <<sent, statusSent, wire, got, moved, tpc, status>>
+  /\ UNCHANGED <<sent, statusSent, wire, got, moved, tpc, status, pstate, shut>>
 
 \* pinned code: [lock: flag := TRUE; data := stderr.empty()] ... _feed(data)
 CombineTake(c) ==
@@ -168,17 +198,18 @@ CombineTake(c) ==
   /\ moved' = [moved EXCEPT ![c] = Old(c)]
   /\ buf' = [buf EXCEPT ![c].err = <<>>]
   /\ swpc' = [swpc EXCEPT ![c] = "moved"]
-  /\ UNCHANGED <<sent, statusSent, wire, got, tpc, status>>
+  /\ UNCHANGED <<sent, statusSent, wire, got, tpc, status, pstate, shut>>
 CombineRefeed(c) ==
   /\ swpc[c] = "moved"
-  /\ buf' = [buf EXCEPT ![c].out = @ \o moved[c]]
+  /\ buf' = [buf EXCEPT ![c].out = Fed(@, c, moved[c])]
   /\ moved' = [moved EXCEPT ![c] = <<>>]
   /\ swpc' = [swpc EXCEPT ![c] = "on"]
-  /\ UNCHANGED <<sent, statusSent, wire, got, combine, tpc, status>>
+  /\ UNCHANGED <<sent, statusSent, wire, got, combine, tpc, status, pstate, shut>>
 
 Next == \/ \E c \in Chans, s \in Eps, n \in 1..MaxMsg : PeerWrite(c, s, n)
         \/ \E c \in Chans, v \in Statuses : PeerExit(c, v)
-        \/ FeedOut \/ FeedExtAtomic \/ FeedExtTest \/ FeedExtFeed \/ ExitStatus
+        \/ \E c \in Chans : PeerEof(c) \/ PeerClose(c)
+        \/ FeedOut \/ FeedExtAtomic \/ FeedExtTest \/ FeedExtFeed \/ ExitStatus \/ EofOrClose
         \/ \E c \in Chans, ep \in Eps, k \in ReadSizes : Recv(c, ep, k)
         \/ \E c \in Chans : CombineAtomic(c) \/ CombineTake(c) \/ CombineRefeed(c)
 Spec == Init /\ [][Next]_vars
